@@ -2,10 +2,10 @@ SPECIFICATION Spec
 CONSTANTS
   Streams <- MCStreams
   MaxChunk = 9
-  HEADERFULL = FALSE
+  HEADERFULL = TRUE
   CHECKLEN = TRUE
   WRAP = 12
-  EOFOK = TRUE
+  EOFOK = FALSE
   FailKinds = {"none", "eof", "err", "eofd"}
 INVARIANTS C02_PacketsInOrder C14_OnlyCompletePackets C02_NoErrorFromPartition C14_CompleteBeforeError
 PROPERTIES C14_ErrorEventually
